@@ -19,18 +19,18 @@ import (
 type driverFunc func(a *args) error
 
 type args struct {
-	seed  int64
-	tier  string
-	out   string
-	in    string
-	n     int
-	extra string
-	only  int // system driver: run only this scenario index (-1 = all)
+	seed           int64
+	tier           string
+	out            string
+	in             string
+	n              int
+	extra          string
+	only           int // system driver: run only this scenario index (-1 = all)
 	shardK, shardN int // system driver: run only the scenarios with index % shardN == shardK
-	w     *bufio.Writer
-	count int
-	nt    map[[20]byte]struct{} // distinct non-trivial records (by content hash)
-	info  map[string]any        // extra summary fields
+	w              *bufio.Writer
+	count          int
+	nt             map[[20]byte]struct{} // distinct non-trivial records (by content hash)
+	info           map[string]any        // extra summary fields
 }
 
 var drivers = map[string]driverFunc{}
